@@ -119,6 +119,27 @@ CLAIMED = {
          'matrix delays are covered in C11 only.',
     technique='TLA+ expansion operator + denotational spec (TLC), exact field probing of three frontend forms',
     ref='6/C16'),
+
+ 'C06': dict(
+    text='spec/Paths.tla: layer M Resolve(pattern, var) (declaration-order traversal, level-wise matching with all wildcards, '
+         'variable ownership) and Columns(request) (labels of dict / list outputs with the node each must carry); layer P the '
+         'recursion of get_nodes, the variable filter and the label construction; TLC checks ColumnCarriesItsLabel (P = M) for '
+         'every circuit (3-4 nodes, two kinds, 3 declaration orders, depth 0-2), every pattern and request form. Each selected '
+         'case is run (a quarter of them after a previous in-place run with the other vectorisation setting) and every column is '
+         'identified by its first two rows (distinct initial values, exact Euler step).',
+    note='Mixed single/multi-key dict requests are known finding D39 (pinned); population outputs are exercised by the C09/C16 runs; '
+         'edges/inputs/update_var use the same resolution and are exercised in C01/C08/C07.',
+    technique='TLA+ path-resolution spec (TLC exhaustive over circuits x requests), exact identification of DataFrame columns',
+    ref='6/C06'),
+ 'C17': dict(
+    text='spec/Grid.tla: the rows a grid denotes (zip / cartesian product), injective labels, and LabelKeepsItsRow (the values '
+         'simulated under a label are those the table shows for it) checked by TLC for pairwise, permuted and re-indexed table '
+         'grids; every case is run through grid_search (node parameters on one / two / all nodes, edge weights, one or two keys, '
+         'extrinsic input, vectorize on/off, a base model whose edges are listed against node order) and each result column is '
+         'compared exactly with a separate run of the adapted model; the returned table is compared with the specification.',
+    note='Oracle for the time series is a separate run() (differential), which C03 binds to Solver.tla; linear integer models, Euler.',
+    technique='TLA+ grid/label spec (TLC), replay through grid_search with exact comparison against separate runs',
+    ref='6/C17'),
 }
 
 NOT_YET = 'check not built yet in this round (planned in DESIGN.md section 6); not claimed'
